@@ -353,6 +353,29 @@ def model_outcome(t, sc):
     return ['ok', records, None, warnings]
 
 
+def warning_kind(w):
+    """The model is compared on what a warning / error is about and the numbers in it, not on its wording."""
+    nums = [int(x) for x in re.findall(r'[0-9]+', w)]
+    low = w.lower()
+    if 'bom' in low or 'byte order mark' in low:
+        return ['bom']
+    if 'quot' in low:
+        return ['quoting'] + nums
+    if 'number of fields' in low or 'consistent' in low:
+        return ['field_count'] + nums
+    return ['other', w]
+
+
+def model_view(out):
+    if out[0] == 'ok':
+        return ['ok', out[1], out[2], [warning_kind(w) for w in out[3]]]
+    if out[0] == 'rows':
+        return ['rows', out[1], [warning_kind(w) for w in out[2]]]
+    if out[0] == 'ioerr':
+        return ['ioerr', warning_kind(out[1])] + list(out[2:])
+    return out
+
+
 # ------------------------------------------------------------------ execution
 
 def iter_cases(sc):
@@ -394,7 +417,7 @@ def execute(sc):
                                  sc.get('shape'), sc.get('bufsize'), sc.get('entry'), sc.get('num_rows')])
     else:
         res['key'] = core.key64(sc)
-    if ref != model:
+    if model_view(ref) != model_view(model):
         res.update(verdict='violation', oracle='model', detail={'whole_delivery': ref, 'model': model},
                    case=single_case(sc, [n] if n else [], n + 1))
         res['evals'] = 1
